@@ -58,7 +58,7 @@ ANCHORS = [
 REQUIRED = {'calls_made': 5000, 'repeats_compared': 2000,
             'user_model_mutations': 100, 'poisoned_calls': 500,
             'parallel_comparisons': 8, 'protected_arguments': 5000,
-            'work_vector_calls': 500}
+            'work_vector_calls': 500, 'held_results_rechecked': 5000}
 
 TIMES = np.array([0.4, 1.0, 1.9, 2.6])
 
@@ -338,6 +338,7 @@ def run_history(ctx, rng, world, n_calls, feats, schedule=None):
     kinds = []
     mutations = []
     work = {}      # caller-owned work vectors, overwritten in place
+    held = []      # (raw result kept by the caller, snapshot, step, label)
     for step in range(n_calls):
         if schedule is not None:
             ei, ai = schedule[step]
@@ -381,6 +382,23 @@ def run_history(ctx, rng, world, n_calls, feats, schedule=None):
                 name.rstrip('0123456789'), call), {}, feats)
             return
         snap = _freeze(res)
+        # results the caller still holds (batch evaluation of several chains
+        # keeps every gradient until the batch is done) were not rewritten
+        for raw, snap0, step0, label0 in held:
+            ctx.count('held_results_rechecked')
+            if not _equal(_freeze(raw), snap0):
+                ctx.violation(
+                    'returned_result_not_rewritten_by_later_calls',
+                    'held_result_rewritten:' + label0,
+                    {'returned_at_step': step0, 'as': snap0,
+                     'now': _freeze(raw), 'rewritten_by': kinds[-1],
+                     'step': step}, feats)
+                return
+        if isinstance(res, (tuple, np.ndarray)):
+            held.append((res, snap, step, '%s.%s' % (
+                name.rstrip('0123456789'), call)))
+            if len(held) > 6:
+                held.pop(0)
         key = (ei, ai % len(args))
         if key in first:
             ctx.count('repeats_compared')
